@@ -534,6 +534,9 @@ void DumpSnap(State* state, Builder* builder, vector<string>* ev) {
     l += " mark=" + std::to_string((int)e->mark_);
     l += string(" depsmissing=") + (e->deps_missing_ ? "1" : "0");
     l += string(" depsloaded=") + (e->deps_loaded_ ? "1" : "0");
+    l += " hash=" + u64hex(e->is_phony() ? 0 : BuildLog::LogEntry::HashCommand(e->EvaluateCommand(true)));
+    l += string(" restat=") + (e->GetBindingBool("restat") ? "1" : "0") + " generator=" + (e->GetBindingBool("generator") ? "1" : "0");
+    l += " deps=" + hex(e->GetBinding("deps")) + " depfile=" + hex(e->GetUnescapedDepfile());
     ev->push_back(l);
   }
   for (Node* n : state->paths_.empty() ? vector<Node*>() : vector<Node*>()) (void)n;
